@@ -531,6 +531,28 @@ def search(ctx):
                         ctx.violation("C14:closure:chained", "%s with x = %r: the derived prior's guess %r / samples %s differ from the expression applied to the base prior's guess %r / samples %s" % (
                             enm, b0, gg, np.round(sg, 4).tolist(), gw, np.round(sw, 4).tolist()), dict(kind="chained", expr=enm, base=repr(b0)))
                         break
+                # derived priors built with an explicit function of several priors, among them functions that REDUCE over their
+                # arguments (a separation distance, a mean radius): every draw is the function of that draw's base values
+                ua, ub, uc = Uniform(0.0, 1.0), Uniform(2.0, 5.0), Gaussian(1.0, 0.3)
+                for fname, ffn, bps in (("norm([b - a, c])", lambda a, b, c: np.linalg.norm([b - a, c]), [ua, ub, uc]), ("mean([a, b])", lambda a, b: np.mean([a, b]), [ua, ub]),
+                                        ("max([a, b, c])", lambda a, b, c: np.max([a, b, c]), [ua, ub, uc]), ("sum([a, c])", lambda a, c: np.sum([a, c]), [ua, uc]),
+                                        ("a + 2*b", lambda a, b: a + 2 * b, [ua, ub]), ("math.hypot(a, b)", lambda a, b: math.hypot(a, b), [ua, ub])):
+                    tp = TransformedPrior(ffn, bps)
+                    for size in (None, 1, 2, 7):
+                        ctx.tried("explicit-transformation", (fname, size, i))
+                        seedt = int(rng.integers(0, 2 ** 31))
+                        np.random.seed(seedt)
+                        got = impl_call(lambda: np.asarray(tp.sample(size), dtype=float))
+                        np.random.seed(seedt)
+                        cols = [np.atleast_1d(np.asarray(bp.sample(size), dtype=float)) for bp in bps]
+                        want = np.array([ffn(*[c[j] for c in cols]) for j in range(len(cols[0]))])
+                        if isinstance(got, tuple):
+                            continue      # a refusal is not a wrong sample
+                        gotf = np.atleast_1d(got).ravel()
+                        if gotf.shape != want.shape or not bool(np.all(np.abs(gotf - want) <= 1e-12 * np.maximum(1.0, np.abs(want)))):
+                            ctx.violation("C14:closure-sample:explicit-function", "TransformedPrior(%s).sample(%r) gives %s; the function applied draw by draw to the base priors' samples gives %s" % (
+                                fname, size, np.round(gotf, 4).tolist()[:8], np.round(want, 4).tolist()[:8]), dict(kind="explicit-function", function=fname, size=size))
+                            break
                 # numpy ufuncs and complex priors
                 p, q = Uniform(1.0, 3.0), Gaussian(2.0, 0.2)
                 ctx.tried("ufunc-complex", i)
